@@ -302,6 +302,9 @@ class Inliner:
         if isinstance(f, ast.Attribute) and isinstance(f.value, ast.Name):
             recv = f.value.id
             if recv in ("self", "cls") and cls is not None:
+                # a method that several classes define is dispatched on the object's class at run time: inlining one definition would fix the dispatch statically
+                if sum(1 for q_ in self.funcs if q_.endswith("." + f.attr)) > 1:
+                    return None, False
                 for c in self._mro(cls):
                     q = f"{c}.{f.attr}"
                     if q in self.new:
